@@ -107,6 +107,7 @@ class Run:
         self.nwaits = 0
         self.zombie_alive = False
         self.expired_in_a_row = 0
+        self.executors = []
 
     def ev(self, *a):
         with self.lock:
@@ -234,6 +235,17 @@ async def _await(fs, *, timeout=None, return_when=asyncio.ALL_COMPLETED):
     return await _real_await(fs, timeout=timeout, return_when=return_when)
 
 
+_real_tpe_init = cft.ThreadPoolExecutor.__init__
+
+
+def _tpe_init(self, *a, **k):
+    _real_tpe_init(self, *a, **k)
+    R = RUN
+    if R is not None:
+        R.executors.append(self)      # a failing call leaves its pool open (idle workers would pile up run after run)
+
+
+cft.ThreadPoolExecutor.__init__ = _tpe_init
 cft.ThreadPoolExecutor.submit = _submit
 asyncio.ensure_future = _ensure_future
 cf.wait = _wait
@@ -301,3 +313,8 @@ def run_controlled(fn, script, timeout=40):
     finally:
         R.open_all()
         RUN = None
+        for ex in R.executors:
+            try:
+                ex.shutdown(wait=False, cancel_futures=True)     # idle workers of a pool left open by a failed call exit
+            except BaseException:  # noqa: BLE001
+                pass
